@@ -118,6 +118,12 @@ func (SubsScenario) GenCase(r *rand.Rand, prop string) interface{} {
 		id++
 		c.Actors = append(c.Actors, ActorSpec{Name: "prod1", Ops: []Op{{ID: id, Kind: "resetall"}}})
 	}
+	if chance(r, 30) {
+		// the connection is lost and restored: the service announces
+		// itself again from the connection's callback goroutine
+		id++
+		c.Actors = append(c.Actors, ActorSpec{Name: "prod2", Ops: []Op{{ID: id, Kind: "reconnect"}}})
+	}
 	c.Actors = append(c.Actors, peer)
 	return c
 }
@@ -143,7 +149,9 @@ func (SubsScenario) Execute(sim *sched.Sim, ci interface{}, prop string, race bo
 	if !race {
 		run.CheckLifecycle()
 		for ep, info := range run.E.Epochs {
-			if info.ServeInvoke != 0 && info.Started == 0 && !run.E.subsChecked[ep] && (ep == 0 || run.E.Epochs[ep-1].ShutdownReturn != 0) {
+			if info.ServeInvoke != 0 && info.Started == 0 && !run.E.subsChecked[ep] && (ep == 0 || run.E.Epochs[ep-1].ShutdownReturn != 0) && c.MidStop[ep] < 0 {
+				// (an epoch that is shut down at a chosen step may be
+				// stopped before it has come up)
 				run.E.checkSubs(ep)
 			}
 		}
